@@ -59,6 +59,9 @@ def run(ctx):
         if k in (2, 3):
             # groups with structured member ids, several in one process (history dependence of the recovery)
             argv += ["--structured", "4,5" if quick else "3,4,5,6,7"]
+        if k in (4, 5):
+            # key generations of several groups at the same time in one process, dealers dealing at the same time
+            argv += ["--concdkg", "16,4" if quick else "16,24"]
         if k == 1:
             # one real DKG + recovery where rounding up and "floor + 1" of 51% differ (n = 100), and next to it
             big = sorted(set(bign + ([] if quick else [b + d for b in bign for d in (-1, 1)])))
@@ -73,9 +76,6 @@ def run(ctx):
             raise Inconclusive("driver printed no summary")
         for key, v in re.findall(r"(\w+)=(\d+)", line[-1]):
             counts[key] = counts.get(key, 0) + int(v)
-    for need in ("cases", "dkg", "deliver", "dupDeliver", "arrive", "recovered", "superset", "below", "k", "big", "concurrent", "redeal", "structuredCases"):
-        if counts.get(need, 0) == 0:
-            raise Inconclusive("vacuity: no %s events were produced" % need)
     # 3. one monitor run over all shards (DkgStart / CaseStart reset the bound state)
     allp = os.path.join(ctx.scratch, "trace-all.ndjson")
     with open(allp, "w") as f:
@@ -83,6 +83,10 @@ def run(ctx):
             f.write(open(tp).read())
     n, bad = ctx.validate_trace("ThresholdTrace", allp, timeout=1500)
     add_violations_from_bad(ctx, bad, allp, reset_event="DkgStart")
+    for need in ("cases", "dkg", "deliver", "dupDeliver", "arrive", "recovered", "superset", "below", "k", "big", "concurrent", "redeal",
+                 "structuredCases", "concurrentDkg"):
+        if counts.get(need, 0) == 0 and not ctx.violations:
+            raise Inconclusive("vacuity: no %s events were produced" % need)
     samples = []
     with open(allp) as f:
         for line in f:
